@@ -212,7 +212,7 @@ PROPS = {
         "correspondence": "real solvers under permutation; mayInvalidate/mergeIntoGuidance witness lines vs chalk-engine",
     },
     "C17": {
-        "extra_props": ["C17ms"],
+        "extra_props": ["C17ms", "C17lin"],
         "level": "proof",
         "rule": "(a) make_solution itself: 250 programs (2/3 overlapping impls of marker traits - answers that are instances of one another, repeated parameters - 1/3 ProgGen) x 5-6 goals with unknowns: "
                 "solve_multiple completes the root table on one SLGSolver, the stored answers are read through the cfg hook, then solve() on the SAME solver must equal "
@@ -233,7 +233,10 @@ PROPS = {
                  "cross-checked by actually merging, combine in both orders).",
         "note": "Trusted: Lean kernel, model fidelity (differential only), harness + its matcher. Known finding F1 (open): may_invalidate unsound for "
                 "guidance that repeats a variable. Constants: the types of corresponding constants are assumed equal (typing), as the Rust code assumes. "
-                "Linearity of anti-unifier results (each fresh variable used once) is argued in the model's doc comment, not yet a theorem.",
+                "Linearity of anti-unifier results is a theorem (Props/C17lin.lean: merge_result_linear - the variables of a merged guidance are exactly ^0.0 .. ^0.(n-1), each once), and with it the structural instance "
+                "relation of the C17/C17ms theorems becomes the real one: merged_guidance_instances (both inputs are SUBSTITUTION INSTANCES of the merge result), definite_guidance_merged_covers_by_instance "
+                "(once make_solution has merged at least one answer, every stored answer is a substitution instance of the definite guidance; the F1 table is exactly the no-merge case with a repeated variable). "
+                "Hypothesis `ctAgree` (corresponding constants carry the same type - typing; the Rust code never compares them) is shown necessary by *_const_type_refuted witnesses on ill-typed tables.",
         "correspondence": "makeSolution (lean/ChalkModel/MakeSolution.lean) vs AggregateOps::make_solution through Solver::solve on a forest whose root table was completed; mayInvalidate/mergeIntoGuidance/isTrivial/Solution.combine/withPriorities (lean/ChalkModel/Aggregate.lean) vs chalk-engine slg::{MayInvalidate, aggregate}, chalk-solve Solution::combine, chalk-recursive combine::with_priorities",
     },
     "C18": {
